@@ -1,7 +1,7 @@
 (* C02 — linked instances converge on the shared device tree (partial: the point exchange is
    proved; the recursion of the catch-up is an executable model validated against two real
    linked instances on every run).  Statements only; proofs in Sync/Proofs.v. *)
-From Verif Require Import Base.Bytes Store.GraphCount Store.GraphWalk Store.Model Store.Check Store.ProofsRows Store.ProofsHash Store.ProofsTop Store.Concurrent Sync.Model Sync.Proofs Sync.ProofsEdge Sync.Frame Sync.Converge Sync.ConvergeExample.
+From Verif Require Import Base.Bytes Store.GraphCount Store.GraphWalk Store.Model Store.Check Store.ProofsRows Store.ProofsHash Store.ProofsTop Store.Concurrent Sync.Model Sync.Proofs Sync.ProofsEdge Sync.Frame Sync.Converge Sync.ConvergeExample Sync.Create.
 
 (* the two comparison loops of a catch-up pass: for any two row lists (one row per identity,
    normalised keys, a tie in time meaning the same point) both sides end up, for every identity,
@@ -135,6 +135,43 @@ Example C02_recursion_example_evaluated :
           [(id_dev, id_c); (id_c, id_g); (id_dev, id_h)] = true /\
   rows_eqb (nrows cD id_g) (nrows cU id_g) = false /\ rows_eqb (edge_rows cD id_c id_g) (edge_rows cU id_c id_g) = false.
 Proof. exact outcome_agrees. Qed.
+
+(* a node that only one side holds (created during an outage): SendNode, the step of sendNodesRemote /
+   sendNodesLocal for one node, copies it to the other side - node points merged into whatever the receiver had
+   for that id, a new edge under the parent with the sender's edge points - and touches nothing else.  (One
+   node; the recursion over its children is validated by correspondence.) *)
+Theorem C02_node_creation :
+  forall U ns e parent origin now,
+    good U -> parent <> [] ->
+    let x := e_down e in
+    let npts := map (fill_origin origin) (node_rows ns x) in
+    let epts := sent_edge_points e origin now in
+    has_nan npts = false -> has_nan epts = false -> x <> parent -> x <> s_root U ->
+    find_edge (s_edges U) parent x = None ->
+    is_upstream (s_edges U) (fuel_of (s_edges U)) x parent = false ->
+    last_node_type (collapse epts) <> [] ->
+    let U' := send_node U ns e parent origin now in
+    node_rows (s_nodes U') x = batch_rows false (node_rows (s_nodes U) x) npts /\
+    (forall y, y <> x -> node_rows (s_nodes U') y = node_rows (s_nodes U) y) /\
+    edge_rows U' parent x = batch_rows true [] epts /\
+    (forall u d, (u, d) <> (parent, x) -> edge_rows U' u d = edge_rows U u d) /\
+    good U'.
+Proof. exact send_node_creates. Qed.
+Print Assumptions C02_node_creation.
+
+(* non-vacuity: the upstream example store without the child c, and c as the downstream holds it *)
+Definition crU : store := run st0 [mk id_ur str_root 1; mk id_dev id_ur 1].
+Definition cr_e : edge := mkEdge 7 id_dev id_c [103%N] [ptt str_tombstone 2 0%N []] 0%N.
+Definition cr_ns : list (bytes * list point) := [(id_c, [ptt [118%N] 3 0x3FF0000000000000%N []])].
+Example C02_node_creation_example :
+  has_nan (map (fill_origin sync_id) (node_rows cr_ns id_c)) = false /\
+  has_nan (sent_edge_points cr_e sync_id 9%Z) = false /\
+  find_edge (s_edges crU) id_dev id_c = None /\
+  is_upstream (s_edges crU) (fuel_of (s_edges crU)) id_c id_dev = false /\
+  last_node_type (collapse (sent_edge_points cr_e sync_id 9%Z)) <> [] /\
+  edge_rows (send_node crU cr_ns cr_e id_dev sync_id 9%Z) id_dev id_c <> [] /\
+  node_rows (s_nodes (send_node crU cr_ns cr_e id_dev sync_id 9%Z)) id_c <> [].
+Proof. vm_compute. repeat split; discriminate. Qed.
 
 (* What the hash short-cut of syncNode cannot see (recorded finding equal-hash-different-content).
    A catch-up pass on a node whose compared hashes are equal returns both stores unchanged whatever lies
